@@ -49,7 +49,7 @@ func (o *OracleC10) AfterCall(n *Node, st *Step) {
 	// "so it can never wait forever": within one height and view every validator can make the
 	// node extend its timer a bounded number of times (its proposal or response, its pre-commit,
 	// its commit - each is kept once taken in, and a duplicate of a kept payload changes
-	// nothing), so the number of extensions in an epoch is bounded by a small multiple of N.  An
+	// nothing), so the number of extensions in an epoch is bounded by a small multiple of N (the library needs at most 3N+1; the limit is 16N+32, so that a library that also extends on other traffic passes).  An
 	// unbounded series means some payload extends the timer every time it is delivered, i.e.
 	// a peer's periodic retransmissions can postpone the timeout indefinitely.
 	{
@@ -64,8 +64,8 @@ func (o *OracleC10) AfterCall(n *Node, st *Step) {
 				e.n++
 			}
 		}
-		if lim := 4*len(s.sc.ValsAt(d.BlockIndex)) + 8; e.n > lim {
-			o.viol(n, "timer_extended_without_bound", "height %d view %d: the timer has been extended %d times in this epoch (more than 4N+8 = %d): retransmitted payloads keep postponing the timeout", d.BlockIndex, d.ViewNumber, e.n, lim)
+		if lim := 16*len(s.sc.ValsAt(d.BlockIndex)) + 32; e.n > lim {
+			o.viol(n, "timer_extended_without_bound", "height %d view %d: the timer has been extended %d times in this epoch (more than 16N+32 = %d): retransmitted payloads keep postponing the timeout", d.BlockIndex, d.ViewNumber, e.n, lim)
 			return
 		}
 	}
